@@ -95,10 +95,41 @@ func c10Craft(args []string) int {
 		waitFlushIdle(60 * time.Second)
 	}
 	ntab := 1 + r.Intn(3)
+	if *scenario == 5 {
+		ntab = 0
+	}
 	for i := 0; i < ntab; i++ {
 		table()
 	}
 	switch *scenario {
+	case 5:
+		// a compaction over 170..210 one-record tables: its success flag lists so many inputs that it is written with
+		// several write calls; the image has the flag cut after the first full buffer (8-byte header + 4096 bytes)
+		for i := 0; i < 170+r.Intn(40); i++ {
+			put(1)
+			_ = db.VerifForceRotate()
+			waitFlushIdle(60 * time.Second)
+		}
+		md, err := db.VerifExecuteCompactionOnly()
+		if err != nil || md == nil {
+			fmt.Println("ERR compaction", err)
+			return 3
+		}
+		put(1 + r.Intn(3))
+		cut := false
+		ents, _ := os.ReadDir(*dir)
+		for _, e := range ents {
+			if strings.HasPrefix(e.Name(), simpledb.SSTableCompactionPathPrefix) {
+				fp := filepath.Join(*dir, e.Name(), simpledb.CompactionFinishedSuccessfulFileName)
+				if st, err := os.Stat(fp); err == nil && st.Size() > 8+4096 {
+					cut = os.Truncate(fp, 8+4096) == nil
+				}
+			}
+		}
+		if !cut {
+			fmt.Println("ERR the flag file did not exceed one write buffer")
+			return 3
+		}
 	case 0:
 		del(1 + r.Intn(4))
 	case 1:
@@ -147,7 +178,7 @@ func runC10Crafted(c *fw.Case, j int) {
 	work := c.Dir
 	dir := filepath.Join(work, "crafted")
 	_ = os.MkdirAll(dir, 0755)
-	scenario := j % 5
+	scenario := j % 6
 	seed := fw.CaseSeed("C10-crafted", c.Seed, j)
 	c.HashAdd("crafted", scenario, seed)
 	lr := rand.New(rand.NewSource(seed ^ 0x77))
@@ -181,7 +212,7 @@ func runC10Crafted(c *fw.Case, j int) {
 		return
 	}
 	agg := &c10Agg{verdicts: map[string]string{}, counts: map[string]int{}}
-	label := fmt.Sprintf("hand-placed level-1 image, scenario %d (%s) seed=%d", scenario, []string{"WAL with deletes only", "WAL with puts only", "WAL with puts and deletes", "flagged unreflected compaction + WAL", "flagged compaction, inputs half removed + WAL"}[scenario], seed)
+	label := fmt.Sprintf("hand-placed level-1 image, scenario %d (%s) seed=%d", scenario, []string{"WAL with deletes only", "WAL with puts only", "WAL with puts and deletes", "flagged unreflected compaction + WAL", "flagged compaction, inputs half removed + WAL", "compaction over ~190 tables whose success flag is cut between two of its writes + WAL"}[scenario], seed)
 	m := c10Nested(c, work, dir, keys, withCont(out), agg, 2, lr, label)
 	c.Obs("level2_images_recovered", int64(agg.judged))
 	c.Obs("level2_listing_order_variants", int64(agg.variants))
@@ -261,7 +292,13 @@ func c10Nested(c *fw.Case, work, src string, keys []string, r0 map[string]*strin
 	defer os.RemoveAll(run)
 	logName := fmt.Sprintf("rec-d%d.log", depth)
 	// (the traced run has no continuation: its crash points are those of Open + read-all + Close only)
-	logPath, res := e2Trace(work, logName, 120, 300000, "e2recover", "-dir", run, "-keys", strings.Join(keys, ","), "-rbuf", "4096", "-wbuf", "64")
+	targs := []string{"e2recover", "-dir", run, "-keys", strings.Join(keys, ","), "-rbuf", "4096", "-wbuf", "64"}
+	if c.Idx%2 == 1 {
+		// every other case recovers with the asynchronous-WAL option set (what a recovery does must not depend on it)
+		targs = append(targs, "-async")
+		c.Obs("recoveries_traced_with_the_async_wal_option", 1)
+	}
+	logPath, res := e2Trace(work, logName, 120, 300000, targs...)
 	defer os.Remove(logPath)
 	if res.TimedOut {
 		c.Inconclusive("traced recovery watchdog expired")
